@@ -204,10 +204,11 @@ def arr_unique(arr):
 # Just reproduce a simpler version of numpy union1d (not numba supported yet)
 @numba.njit()
 def arr_union(ar1, ar2):
+    # always a fresh array: the callers compact the result in place
     if ar1.shape[0] == 0:
-        return ar2
+        return ar2.copy()
     elif ar2.shape[0] == 0:
-        return ar1
+        return ar1.copy()
     else:
         return arr_unique(np.concatenate((ar1, ar2)))
 
